@@ -61,7 +61,7 @@ def runSpecScan (h : String) : String :=
 def showExc : Exc → String
   | .valueError => "ValueError" | .structError => "error" | .keyError => "KeyError" | .typeError => "TypeError"
   | .attributeError => "AttributeError" | .indexError => "IndexError" | .assertionError => "AssertionError"
-  | .recursionError => "RecursionError" | .nonAscii => "nonascii"
+  | .recursionError => "RecursionError"
 
 def showVal : Val → String
   | .int v => toString v
@@ -106,6 +106,15 @@ def runFields (cls pl : String) : String :=
       match t.encode vs with
       | .error e => showFields t vs ++ " pack=EXC:" ++ showExc e
       | .ok bs => showFields t vs ++ " pack=" ++ toHex bs
+
+/-- `ch|<n>|<data hex>`: one `CH(n)` item: unpack(data), then pack() -/
+def runCh (n : Nat) (data : List Nat) : String :=
+  match (Kind.text n).unpack data with
+  | .error e => "EXC:" ++ showExc e
+  | .ok (v, k) =>
+      match (Kind.text n).pack v with
+      | .error e => s!"{k} {showVal v} pack=EXC:{showExc e}"
+      | .ok bs => s!"{k} {showVal v} pack={toHex bs}"
 
 def parseVal (s : String) : Val :=
   if s.startsWith "s:" then .str (parseHex (String.ofList (s.toList.drop 2))) else .int (parseInt s)
@@ -634,6 +643,7 @@ def handle (line : String) : String :=
   | ["specscan", h] => runSpecScan h
   | "seq" :: rest => runSeq rest
   | ["fields", c, pl] => runFields c pl
+  | ["ch", n, d] => runCh n.toNat! (parseHex d)
   | ["assign", c, pl, f, v] => runAssign c pl f v
   | ["assign", c, pl, f, v, _] => runAssign c pl f v
   | "keypack" :: rest => runKeyPack rest
